@@ -78,3 +78,12 @@ func (w *refWallet) Address(i uint32) (string, string, [32]byte, bool) {
 	}
 	return std.EncodeAddress(), stk.EncodeAddress(), h, true
 }
+
+// InternalKey returns the reference key at index i of the internal (change) branch m/44'/coin'/1'/1/i.
+func (w *refWallet) InternalKey(i uint32) (*refXKey, bool) {
+	br, ok := refCKDPriv(w.Acct, 1)
+	if !ok {
+		return nil, false
+	}
+	return refCKDPriv(br, i)
+}
